@@ -49,3 +49,56 @@ Theorem classes_total :
   forall (P B : Type) (m : mol P B), atoms m <> nil -> exists r, classes m = Some r.
 Proof. exact Equitable.refine_fuel_suffices. Qed.
 Print Assumptions classes_total.
+
+(* ------------------------------------------------------------------------------------------------ *)
+(* The quantifier closed over the readers (Proofs/EndToEnd2.v): wfg is a theorem about every graph the
+   molfile entry point returns (ReadersNoZero.read_molfile_wfg).  (classes_total, classes_same_invariant
+   and classes_equitable above need no well-formedness at all; they are restated for graphs read so
+   that the three parts of the property stand side by side.) *)
+Require Import Text Molfile.
+Require V2000 EndToEnd2.
+
+Theorem C13_read_classes_total :
+  forall (s : text) (g : mol rpay Z),
+    V2000.read_molfile s = ok g -> atoms g <> nil -> exists r, classes g = Some r.
+Proof. exact EndToEnd2.read_classes_total. Qed.
+Print Assumptions C13_read_classes_total.
+
+Theorem C13_read_classes_label_independent :
+  forall (s s' : text) (g g' : mol rpay Z) (f : N -> N),
+    V2000.read_molfile s = ok g -> V2000.read_molfile s' = ok g' -> SameMol f g g' ->
+    match classes g, classes g' with
+    | Some r, Some r' => forall x x', In x (atoms r) -> In x' (atoms r') -> lbl x' = f (lbl x) -> part x' = part x
+    | None, None => True
+    | _, _ => False
+    end.
+Proof. exact EndToEnd2.read_classes_label_independent. Qed.
+Print Assumptions C13_read_classes_label_independent.
+
+(* with an atom: both refinements are defined *)
+Theorem C13_read_classes_label_independent_total :
+  forall (s s' : text) (g g' : mol rpay Z) (f : N -> N),
+    V2000.read_molfile s = ok g -> V2000.read_molfile s' = ok g' -> SameMol f g g' -> atoms g <> nil ->
+    exists r r', classes g = Some r /\ classes g' = Some r' /\
+      forall x x', In x (atoms r) -> In x' (atoms r') -> lbl x' = f (lbl x) -> part x' = part x.
+Proof. exact EndToEnd2.read_classes_label_independent_total. Qed.
+Print Assumptions C13_read_classes_label_independent_total.
+
+Theorem C13_read_classes_respect_automorphisms :
+  forall (s : text) (g r : mol rpay Z) (f : N -> N),
+    V2000.read_molfile s = ok g -> SameMol f g g -> classes g = Some r ->
+    forall x x', In x (atoms r) -> In x' (atoms r) -> lbl x' = f (lbl x) -> part x' = part x.
+Proof. exact EndToEnd2.read_classes_respect_automorphisms. Qed.
+Print Assumptions C13_read_classes_respect_automorphisms.
+
+(* every accepted text with an atom: the classes are defined, atoms of one class share the invariant
+   code and see the same multiset of classes among their neighbours *)
+Theorem C13_read_classes_total_equitable :
+  forall (s : text) (g : mol rpay Z),
+    V2000.read_molfile s = ok g -> atoms g <> nil ->
+    exists r, classes g = Some r /\
+      forall x y, In x (atoms r) -> In y (atoms r) -> part x = part y ->
+        inv_code x = inv_code y /\
+        isort Ngeb (nbr_vals (@part rpay) r (lbl x)) = isort Ngeb (nbr_vals (@part rpay) r (lbl y)).
+Proof. exact EndToEnd2.read_classes_total_equitable. Qed.
+Print Assumptions C13_read_classes_total_equitable.
